@@ -1,27 +1,27 @@
-\* C14 thorough: budget 2400, 3600-byte reliable message
+\* C13 quick: reliable messages around the packing threshold, ids and sequences across varint width boundaries
 SPECIFICATION Spec
 CONSTANTS
   ChSC <- Ch_RO
   ChCS <- Ch_RO
-  SeqBase = 0
-  MidBase = 0
-  Budget = 2400
-  Workload <- WL_3600
+  SeqBase = 60
+  MidBase = 16381
+  Budget = 60000
+  Workload <- WL_pack
   MaxFlushS = 1
-  MaxFlushC = 3
-  MaxTicks = 2
+  MaxFlushC = 2
+  MaxTicks = 0
   Dts = {300}
   MaxDeliver = 1
   HealDt = 300
-  HealRounds = 3
+  HealRounds = 1
   Bound <- NoBound
-  HealLose = {TRUE, FALSE}
+  HealLose = {FALSE}
   Reorder = TRUE
   RecvAnywhere = FALSE
-  PropsOn <- P_C14
+  PropsOn <- P_C13
   MaxHostile = 0
   HostileSet = "none"
-  ExportAll = FALSE
+  ExportAll = TRUE
   Export = TRUE
 INVARIANT NoFlag
 INVARIANT ExportInv
